@@ -7,9 +7,12 @@
 
 ssize_t read(int __fd, void *__buf, size_t __nbytes)
 V_REQUIRES(__nbytes == 0 || __CPROVER_w_ok(__buf, __nbytes))
-V_ASSIGNS(__nbytes > 0: __CPROVER_object_upto(__buf, __nbytes); g_fpos, g_rd_bytes, g_io_failed, g_last_read)
-V_ENSURES(g_last_read == __CPROVER_return_value)
+V_ASSIGNS(__nbytes > 0: __CPROVER_object_upto(__buf, __nbytes); g_fpos, g_rd_bytes, g_io_failed, g_last_read, g_watch_seen, g_watch_val)
 V_ENSURES(__CPROVER_return_value >= -1 && (__CPROVER_return_value == -1 || (size_t)__CPROVER_return_value <= __nbytes))
+#define RD_HIT(fd, ret) ((fd) == g_watch_fd && (ret) > 0 && g_watch_off >= V_OLD(g_fpos[G_IX(fd)]) && g_watch_off - V_OLD(g_fpos[G_IX(fd)]) < (g_off_t)(ret))
+V_ENSURES(!RD_HIT(__fd, __CPROVER_return_value) || (g_watch_seen == 1 && (V_OLD(g_watch_seen) == 1 || g_watch_val == ((unsigned char *)__buf)[g_watch_off - V_OLD(g_fpos[G_IX(__fd)])]) && (V_OLD(g_watch_seen) != 1 || (g_watch_val == V_OLD(g_watch_val) && g_watch_val == ((unsigned char *)__buf)[g_watch_off - V_OLD(g_fpos[G_IX(__fd)])]))))
+V_ENSURES(RD_HIT(__fd, __CPROVER_return_value) || (g_watch_seen == V_OLD(g_watch_seen) && g_watch_val == V_OLD(g_watch_val)))
+V_ENSURES(g_last_read == __CPROVER_return_value)
 V_ENSURES(__CPROVER_return_value < 0 || (g_fpos[G_IX(__fd)] == V_OLD(g_fpos[G_IX(__fd)]) + (g_off_t)__CPROVER_return_value && g_rd_bytes[G_IX(__fd)] == V_OLD(g_rd_bytes[G_IX(__fd)]) + (size_t)__CPROVER_return_value))
 V_ENSURES(__CPROVER_return_value >= 0 || (g_fpos[G_IX(__fd)] == V_OLD(g_fpos[G_IX(__fd)]) && g_rd_bytes[G_IX(__fd)] == V_OLD(g_rd_bytes[G_IX(__fd)])))
 V_ENSURES((!((__CPROVER_return_value == -1 || (size_t)__CPROVER_return_value < __nbytes)) || (g_io_failed == 1)) && (((__CPROVER_return_value == -1 || (size_t)__CPROVER_return_value < __nbytes)) || (g_io_failed == V_OLD(g_io_failed))))
